@@ -200,3 +200,92 @@ V("C01-benign-rename", "C01", "locals renamed in _set_value", CORE, expect="sile
                 field.__setval__(self, checked)
                 self._default_value_keys.discard(key)
                 return checked""")])
+
+# ------------------------------------------------------------------------------------------ C19
+V("C19-open-before-dumps", "C19", "destination opened (truncated) before serialisation", CORE,
+  """        content = self.dumps(format, **kwargs)
+        filename = os.path.expanduser(filename)
+        with open(filename, "wb") as file:
+            file.write(content)""",
+  """        filename = os.path.expanduser(filename)
+        with open(filename, "wb") as file:
+            content = self.dumps(format, **kwargs)
+            file.write(content)""", expect_rule="dumps-before-open")
+V("C19-swallow-dumps-error", "C19", "serialisation failure swallowed, empty content written", CORE,
+  "        content = self.dumps(format, **kwargs)\n        filename",
+  "        try:\n            content = self.dumps(format, **kwargs)\n        except Exception:\n            content = b\"\"\n        filename",
+  expect_rule="dumps-before-open")
+V("C19-write-twice", "C19", "an extra write before the content", CORE,
+  "            file.write(content)", "            file.write(b\"\")\n            file.write(content)", expect_rule="write.")
+V("C19-write-transformed", "C19", "content transformed before writing", CORE,
+  "            file.write(content)", "            file.write(content.strip())", expect_rule="write.exact")
+V("C19-touch-first", "C19", "destination touched (created/truncated) to test writability before dumps", CORE,
+  "        content = self.dumps(format, **kwargs)\n        filename = os.path.expanduser(filename)",
+  "        filename = os.path.expanduser(filename)\n        open(filename, \"wb\").close()\n        content = self.dumps(format, **kwargs)",
+  expect_rule="dumps-before-open")
+V("C19-benign-helper", "C19", "write moved into a helper taking (filename, content)", CORE, expect="silent",
+  old="""        with open(filename, "wb") as file:
+            file.write(content)""",
+  new="""        self._write(filename, content)
+
+    def _write(self, filename, content):
+        with open(filename, "wb") as file:
+            file.write(content)""")
+V("C19-benign-atomic", "C19", "atomic replace: write to a temp name, then os.replace", CORE, expect="silent",
+  old="""        with open(filename, "wb") as file:
+            file.write(content)""",
+  new="""        tmp = filename + ".tmp"
+        with open(tmp, "wb") as file:
+            file.write(content)
+        os.replace(tmp, filename)""")
+
+# ------------------------------------------------------------------------------------------ C10
+V("C10-recursion-drops-mask", "C10", "recursion into sub-configs drops the mask", CORE,
+  """                value = field_value.to_tree(
+                    virtual=virtual, sensitive_mask=sensitive_mask
+                )""",
+  "                value = field_value.to_tree(virtual=virtual)", expect_rule="forward @ Config.to_tree")
+V("C10-list-items-drop-mask", "C10", "list-of-config interception drops the mask", CORE,
+  "                    item.to_tree(virtual=virtual, sensitive_mask=sensitive_mask)\n                    for item",
+  "                    item.to_tree(virtual=virtual)\n                    for item", expect_rule="forward")
+V("C10-interception-removed", "C10", "D5 re-introduced: interception branch removed", CORE,
+  """            elif (
+                isinstance(field_value, list)
+                and field_value
+                and all(isinstance(item, Config) for item in field_value)
+            ):
+                # list of configurations: render each item with the same options
+                value = [
+                    item.to_tree(virtual=virtual, sensitive_mask=sensitive_mask)
+                    for item in field_value
+                ]
+""", "", expect_rule="forward @ ListField.to_basic")
+V("C10-interception-conditional", "C10", "interception additionally depends on a field option", CORE,
+  "                and all(isinstance(item, Config) for item in field_value)\n            ):",
+  "                and all(isinstance(item, Config) for item in field_value)\n                and not field.required\n            ):",
+  expect_rule="forward @ ListField.to_basic")
+V("C10-mask-partial", "C10", "one-character mask keeps the tail of the value", CORE,
+  "                    value = sensitive_mask * len(str(field_value))",
+  "                    value = sensitive_mask + str(field_value)[1:]", expect_rule="renders-mask")
+V("C10-mask-truthiness", "C10", "`sensitive_mask is not None` replaced by truthiness (empty mask shows values)", CORE,
+  "                and field.sensitive\n                and sensitive_mask is not None\n            ):",
+  "                and field.sensitive\n                and sensitive_mask\n            ):", expect_rule="sensitive-branch")
+V("C10-encoder-first", "C10", "encoder runs before the sensitive branch and wins", CORE,
+  """            if isinstance(field_value, Config):
+                value = field_value.to_tree(""",
+  """            if isinstance(field, Field) and not isinstance(field_value, (Config, list)):
+                value = field.to_basic(self, field_value)
+            if isinstance(field_value, Config):
+                value = field_value.to_tree(""", expect_rule="encoder")
+V("C10-verbatim-for-single", "C10", "single-character masks no longer repeated", CORE,
+  "                elif len(sensitive_mask) == 1:\n                    value = sensitive_mask * len(str(field_value))\n                else:",
+  "                elif len(sensitive_mask) == 0:\n                    value = sensitive_mask * len(str(field_value))\n                else:",
+  expect_rule="renders-mask")
+V("C10-nonsensitive-masked", "C10", "mask applied to every field, sensitive or not", CORE,
+  "                isinstance(field, Field)\n                and field.sensitive\n                and sensitive_mask is not None",
+  "                isinstance(field, Field)\n                and sensitive_mask is not None", expect_rule="sensitive-branch")
+V("C10-benign-positional", "C10", "mask forwarded positionally", CORE, expect="silent",
+  old="""                value = field_value.to_tree(
+                    virtual=virtual, sensitive_mask=sensitive_mask
+                )""",
+  new="                value = field_value.to_tree(virtual, sensitive_mask)")
